@@ -973,6 +973,106 @@ pub fn gen_grown_case(rng: &mut Rng, terms: &[TermD], kinds_pool: &[&str], canar
     Case { src_kind, input, ops, sets, term, mode: Mode::Ctl(sch), panic_at: None }
 }
 
+/// shrink a failing case: repeatedly try smaller variants (fewer input elements, fewer setters,
+/// free-running instead of a schedule, no jitter) and keep a variant while the oracle still reports
+/// a failure with the same tag (`prefix`, e.g. "C01:"); bounded by `budget` runs
+pub fn shrink(out: &mut dyn Write, base: &Case, prefix: &str, budget: usize) -> std::io::Result<Case> {
+    let mut sink: Vec<u8> = vec![];
+    let fails_with = |c: &Case, sink: &mut Vec<u8>| -> bool {
+        sink.clear();
+        // a variant must stay well-formed: an injected panic has to remain reachable
+        match emit_case(sink, "shrink", c, false) {
+            Ok(rep) => rep.fails.iter().any(|f| f.starts_with(prefix)),
+            Err(_) => false,
+        }
+    };
+    let mut cur = base.clone();
+    let mut runs = 0usize;
+    // repeat the original a few times: a failure that needs luck is not shrunk
+    let mut stable = 0;
+    for _ in 0..3 {
+        if fails_with(&cur, &mut sink) {
+            stable += 1;
+        }
+        runs += 1;
+    }
+    if stable < 3 {
+        writeln!(out, "SHRUNK\t{}\tnot-shrunk(the failure reproduced in {} of 3 runs)", cur.enc(), stable)?;
+        return Ok(cur);
+    }
+    let mut progress = true;
+    while progress && runs < budget {
+        progress = false;
+        let mut cands: Vec<Case> = vec![];
+        let n = cur.input.len();
+        if n >= 2 {
+            for (a, b) in [(0, n / 2), (n / 2, n), (0, n - 1), (1, n), (n / 4, n - n / 4)] {
+                if a < b && b - a < n {
+                    let mut c = cur.clone();
+                    c.input = cur.input[a..b].to_vec();
+                    cands.push(c);
+                }
+            }
+            if n <= 16 {
+                for i in 0..n {
+                    let mut c = cur.clone();
+                    c.input.remove(i);
+                    cands.push(c);
+                }
+            }
+        }
+        for (i, ss) in cur.sets.iter().enumerate() {
+            for j in 0..ss.len() {
+                let mut c = cur.clone();
+                c.sets[i].remove(j);
+                cands.push(c);
+            }
+        }
+        match &cur.mode {
+            Mode::Ctl(sch) => {
+                let mut c = cur.clone();
+                c.mode = Mode::Free(0);
+                cands.push(c);
+                if sch.len() > 4 {
+                    let mut c = cur.clone();
+                    c.mode = Mode::Ctl(sch[..sch.len() / 2].to_vec());
+                    cands.push(c);
+                }
+            }
+            Mode::Free(j) if *j != 0 => {
+                let mut c = cur.clone();
+                c.mode = Mode::Free(0);
+                cands.push(c);
+            }
+            _ => {}
+        }
+        for c in cands {
+            if runs >= budget {
+                break;
+            }
+            // keep an injected panic on an invocation that still exists
+            if let Some(pa) = c.panic_at {
+                if pa.0 < 100 || pa.0 == ST_PRED || pa.0 == ST_FOR_EACH {
+                    let ex = expect(&c);
+                    let full = seq_eval(&c.input, &c.ops, &mut |y, log| { log.push((ST_PRED, y)); log.push((ST_FOR_EACH, y)); true });
+                    if !ex.log.contains(&pa) && !full.contains(&pa) {
+                        continue;
+                    }
+                }
+            }
+            runs += 2;
+            // twice: keep only variants that fail reliably
+            if fails_with(&c, &mut sink) && fails_with(&c, &mut sink) {
+                cur = c;
+                progress = true;
+                break;
+            }
+        }
+    }
+    writeln!(out, "SHRUNK\t{}\t{} runs", cur.enc(), runs)?;
+    Ok(cur)
+}
+
 pub fn gen_pred(rng: &mut Rng) -> PredD {
     let k = *rng.pick(&[1u64, 2, 3, 5, 7, 11, 50, 1000, 1_000_003]);
     PredD { k, r: rng.below(k.min(13)) }
